@@ -16,6 +16,7 @@ ENGINE_PATCHES = [
     "copyreg.pickle(FrozenAttributes / FmtStr / Chunk) so CrossHair's own deepcopy bookkeeping can copy them (plain copy.copy of a FmtStr raises RecursionError / 'Cannot change value.')",
     "SymbolicInt.__mul__/__rmul__ with ' ' returns a SegStr of spaces (only in SegStr harnesses)",
     "z3.Solver.check wrapped to count queries and solver seconds",
+    "StateSpace.__init__ wrapped: module-level containers of the curtsies modules are restored to their snapshot at the start of every path (chx/statereset.py)",
     "search heuristics off: premature realisation of arguments (redundant subset of the symbolic path) and short-circuiting of contract-carrying callees (real bodies always run)",
 ]
 
